@@ -369,4 +369,838 @@ mod n {
             c.sample(|| format!("offset {:?} deviation {} square {} -> {} walls {} windows {} shades", off, dev, square, model.walls.len(), model.windows.len(), model.shades.len()));
         });
     }
+
+    // ---- C02: converted models are referentially closed, or conversion fails with an error -----------------------
+    use std::collections::HashSet;
+    use std::path::{Path, PathBuf};
+
+    fn tests_root() -> PathBuf {
+        Path::new(env!("CARGO_MANIFEST_DIR")).join("../hulc_tests/tests")
+    }
+
+    fn files_with_ext(dir: &Path, ext: &str, out: &mut Vec<PathBuf>) {
+        let mut entries: Vec<PathBuf> = std::fs::read_dir(dir).map(|r| r.filter_map(|e| e.ok().map(|e| e.path())).collect()).unwrap_or_default();
+        entries.sort();
+        for p in entries {
+            if p.is_dir() {
+                files_with_ext(&p, ext, out);
+            } else if p.extension().and_then(|e| e.to_str()).map(|e| e.eq_ignore_ascii_case(ext)).unwrap_or(false) {
+                out.push(p);
+            }
+        }
+    }
+
+    /// Every link the property lists, checked against the model itself (independent of Model::check)
+    pub(crate) fn closure_violations(m: &Model) -> Vec<String> {
+        let mut out = vec![];
+        fn uniq(kind: &str, ids: Vec<Uuid>, out: &mut Vec<String>) -> HashSet<Uuid> {
+            let mut set = HashSet::new();
+            for id in ids {
+                if id.is_nil() {
+                    out.push(format!("nil id in {}", kind));
+                }
+                if !set.insert(id) {
+                    out.push(format!("duplicate id {} in {}", id, kind));
+                }
+            }
+            set
+        }
+        let spaces = uniq("spaces", m.spaces.iter().map(|x| x.id).collect(), &mut out);
+        let walls = uniq("walls", m.walls.iter().map(|x| x.id).collect(), &mut out);
+        uniq("windows", m.windows.iter().map(|x| x.id).collect(), &mut out);
+        uniq("shades", m.shades.iter().map(|x| x.id).collect(), &mut out);
+        uniq("thermal_bridges", m.thermal_bridges.iter().map(|x| x.id).collect(), &mut out);
+        let wallcons = uniq("wallcons", m.cons.wallcons.iter().map(|x| x.id).collect(), &mut out);
+        let wincons = uniq("wincons", m.cons.wincons.iter().map(|x| x.id).collect(), &mut out);
+        let materials = uniq("materials", m.cons.materials.iter().map(|x| x.id).collect(), &mut out);
+        let glasses = uniq("glasses", m.cons.glasses.iter().map(|x| x.id).collect(), &mut out);
+        let frames = uniq("frames", m.cons.frames.iter().map(|x| x.id).collect(), &mut out);
+        let loads = uniq("loads", m.loads.iter().map(|x| x.id).collect(), &mut out);
+        let thermostats = uniq("thermostats", m.thermostats.iter().map(|x| x.id).collect(), &mut out);
+        let years = uniq("schedules.year", m.schedules.year.iter().map(|x| x.id).collect(), &mut out);
+        let weeks = uniq("schedules.week", m.schedules.week.iter().map(|x| x.id).collect(), &mut out);
+        let days = uniq("schedules.day", m.schedules.day.iter().map(|x| x.id).collect(), &mut out);
+        let mut link = |what: String, id: Uuid, set: &HashSet<Uuid>| {
+            if !set.contains(&id) {
+                out.push(format!("{} -> {} does not resolve", what, id));
+            }
+        };
+        for w in &m.walls {
+            link(format!("wall {} space", w.name), w.space, &spaces);
+            link(format!("wall {} cons", w.name), w.cons, &wallcons);
+            if let Some(n) = w.next_to {
+                link(format!("wall {} next_to", w.name), n, &spaces);
+            }
+        }
+        for w in &m.windows {
+            link(format!("window {} wall", w.name), w.wall, &walls);
+            link(format!("window {} cons", w.name), w.cons, &wincons);
+        }
+        for c in &m.cons.wallcons {
+            for l in &c.layers {
+                link(format!("wallcons {} layer", c.name), l.material, &materials);
+            }
+        }
+        for c in &m.cons.wincons {
+            link(format!("wincons {} glass", c.name), c.glass, &glasses);
+            link(format!("wincons {} frame", c.name), c.frame, &frames);
+        }
+        for s in &m.spaces {
+            if let Some(l) = s.loads {
+                link(format!("space {} loads", s.name), l, &loads);
+            }
+            if let Some(t) = s.thermostat {
+                link(format!("space {} thermostat", s.name), t, &thermostats);
+            }
+        }
+        for l in &m.loads {
+            for (k, v) in [("people", l.people_schedule), ("equipment", l.equipment_schedule), ("lighting", l.lighting_schedule)] {
+                if let Some(id) = v {
+                    link(format!("loads {} {}_schedule", l.name, k), id, &years);
+                }
+            }
+        }
+        for t in &m.thermostats {
+            for (k, v) in [("temp_max", t.temp_max), ("temp_min", t.temp_min)] {
+                if let Some(id) = v {
+                    link(format!("thermostat {} {}", t.name, k), id, &years);
+                }
+            }
+        }
+        for y in &m.schedules.year {
+            for (id, _) in &y.values {
+                link(format!("year schedule {} week", y.name), *id, &weeks);
+            }
+        }
+        for w in &m.schedules.week {
+            for (id, _) in &w.values {
+                link(format!("week schedule {} day", w.name), *id, &days);
+            }
+        }
+        out
+    }
+
+    /// number of optional links that are present in the model
+    fn optional_links(m: &Model) -> usize {
+        m.spaces.iter().map(|s| s.loads.is_some() as usize + s.thermostat.is_some() as usize).sum::<usize>()
+            + m.walls.iter().filter(|w| w.next_to.is_some()).count()
+            + m.loads.iter().map(|l| l.people_schedule.is_some() as usize + l.equipment_schedule.is_some() as usize + l.lighting_schedule.is_some() as usize).sum::<usize>()
+            + m.thermostats.iter().map(|t| t.temp_max.is_some() as usize + t.temp_min.is_some() as usize).sum::<usize>()
+    }
+
+    enum Outcome {
+        Model(Box<Model>),
+        Rejected(String),
+        Crashed(String),
+        Hung,
+    }
+
+    fn convert_guarded(run: impl FnOnce() -> Result<Model, anyhow::Error> + Send + 'static) -> Outcome {
+        let r = run_with_timeout(60, move || {
+            std::panic::catch_unwind(std::panic::AssertUnwindSafe(run)).map_err(|e| {
+                if let Some(s) = e.downcast_ref::<&str>() {
+                    s.to_string()
+                } else if let Some(s) = e.downcast_ref::<String>() {
+                    s.clone()
+                } else {
+                    "panic".to_string()
+                }
+            })
+        });
+        match r {
+            None => Outcome::Hung,
+            Some(Err(msg)) => Outcome::Crashed(msg),
+            Some(Ok(Err(e))) => Outcome::Rejected(e.to_string()),
+            Some(Ok(Ok(m))) => Outcome::Model(Box::new(m)),
+        }
+    }
+
+    fn convert_text(text: String) -> Outcome {
+        convert_guarded(move || Model::try_from(&hulc::ctehexml::parse_with_catalog(&text)?))
+    }
+
+    /// legacy LIDER file: the BDL text alone; general data as HULC would write for a new D3 dwelling
+    fn convert_cte(path: PathBuf) -> Outcome {
+        convert_guarded(move || {
+            let mut data = hulc::ctehexml::CtehexmlData::default();
+            data.bdldata = Data::new_from_path(&path)?;
+            let cat = hulc::ctehexml::load_lider_catalog()?;
+            data.bdldata.db.materials.extend(cat.materials);
+            data.bdldata.db.wallcons.extend(cat.wallcons);
+            data.bdldata.db.wincons.extend(cat.wincons);
+            data.bdldata.db.glasses.extend(cat.glasses);
+            data.bdldata.db.frames.extend(cat.frames);
+            data.datos_generales.archivo_climatico = "D3".to_string();
+            data.datos_generales.tipo_vivienda = "Unifamiliar".to_string();
+            Model::try_from(&data)
+        })
+    }
+
+    fn judge_model(c: &mut Ctx, what: &str, m: &Model) {
+        let v = closure_violations(m);
+        c.check("C02.closed", v.is_empty(), || format!("{}: {} broken links / ids, first: {:?}", what, v.len(), &v[..v.len().min(3)]));
+        let w = crate::checks::check(m);
+        c.check("C02.checker_silent", w.is_empty(), || format!("{}: model checker reports {:?}", what, w.iter().take(3).map(|x| x.msg.clone()).collect::<Vec<_>>()));
+    }
+
+    #[test]
+    fn n_c02_shipped_closed() {
+        let mut projects = vec![];
+        files_with_ext(&tests_root(), "ctehexml", &mut projects);
+        let mut legacy = vec![];
+        files_with_ext(&tests_root().join("liderdata"), "cte", &mut legacy);
+        let n_projects = projects.len();
+        let all: Vec<PathBuf> = projects.into_iter().chain(legacy.into_iter()).collect();
+        drive("C02.shipped", "every .ctehexml project and every legacy LIDER .cte file under hulc_tests/tests, parsed and converted by the real code: ids unique per collection, every listed link resolves, model checker silent", |c| {
+            c.check("C02.shipped.corpus", n_projects >= 12 && all.len() >= 60, || format!("corpus shrank: {} projects, {} files in all", n_projects, all.len()));
+            let k = c.pick(all.len());
+            let path = all[k].clone();
+            let name = path.file_name().unwrap().to_string_lossy().to_string();
+            c.note(name.clone());
+            let outcome = if k < n_projects {
+                match std::fs::read_to_string(&path) {
+                    Ok(t) => convert_text(t),
+                    Err(e) => Outcome::Rejected(format!("unreadable as UTF-8: {}", e)),
+                }
+            } else {
+                convert_cte(path)
+            };
+            match outcome {
+                Outcome::Model(m) => {
+                    judge_model(c, &name, &m);
+                    c.nontrivial(name.clone());
+                    c.sample(|| format!("{}: {} spaces {} walls {} windows {} wallcons {} schedules", name, m.spaces.len(), m.walls.len(), m.windows.len(), m.cons.wallcons.len(), m.schedules.year.len()));
+                }
+                Outcome::Rejected(e) => {
+                    // shipped .ctehexml projects are intact and convert; a legacy file may be rejected with an error
+                    c.check("C02.shipped.converts", k >= n_projects, || format!("{} no longer converts: {}", name, e));
+                    c.sample(|| format!("{}: rejected: {}", name, e.chars().take(100).collect::<String>()));
+                }
+                Outcome::Crashed(msg) => c.check("C02.rejects_with_error", false, || format!("{}: conversion panicked: {}", name, msg)),
+                Outcome::Hung => {
+                    c.check("C02.rejects_with_error", false, || format!("{}: conversion did not return in 60 s", name));
+                    c.stop();
+                }
+            }
+        });
+    }
+
+    /// (byte offset of the name, name, block kind) of every `"NAME" = KIND` definition line of a BDL text
+    fn definitions(text: &str) -> Vec<(usize, String, String)> {
+        let mut out = vec![];
+        let mut off = 0;
+        for line in text.split_inclusive('\n') {
+            let t = line.trim_start();
+            if t.starts_with('"') {
+                if let Some(q) = t[1..].find('"') {
+                    let name = &t[1..1 + q];
+                    let rest = t[q + 2..].trim();
+                    if let Some(kind) = rest.strip_prefix('=') {
+                        let kind = kind.trim();
+                        if !kind.is_empty() && !name.is_empty() && kind.chars().all(|ch| ch.is_ascii_uppercase() || ch == '-' || ch == '_') {
+                            out.push((off + (line.len() - t.len()) + 1, name.to_string(), kind.to_string()));
+                        }
+                    }
+                }
+            }
+            off += line.len();
+        }
+        out
+    }
+
+    fn is_referenced(text: &str, name: &str, def_at: usize) -> bool {
+        let pat = format!("\"{}\"", name);
+        let mut from = 0;
+        while let Some(i) = text[from..].find(&pat) {
+            let at = from + i;
+            if at + 1 != def_at {
+                return true;
+            }
+            from = at + pat.len();
+        }
+        false
+    }
+
+    fn broken_refs(obligation: &'static str, scope: &'static str, pick_projects: fn(&[PathBuf]) -> Vec<PathBuf>) {
+        let mut projects = vec![];
+        files_with_ext(&tests_root(), "ctehexml", &mut projects);
+        let chosen = pick_projects(&projects);
+        let texts: Vec<(String, String, Vec<(usize, String, String)>, usize)> = chosen
+            .iter()
+            .map(|p| {
+                let t = std::fs::read_to_string(p).expect("project text");
+                let defs: Vec<_> = definitions(&t).into_iter().filter(|(at, name, _)| is_referenced(&t, name, *at)).collect();
+                let links = match convert_text(t.clone()) {
+                    Outcome::Model(m) => optional_links(&m),
+                    _ => usize::MAX,
+                };
+                (p.file_name().unwrap().to_string_lossy().to_string(), t, defs, links)
+            })
+            .collect();
+        drive(obligation, scope, |c| {
+            c.check("C02.broken.corpus", !texts.is_empty() && texts.iter().all(|t| t.2.len() >= 10), || "projects or their definitions not found".to_string());
+            let k = c.pick(texts.len());
+            let (fname, text, defs, base_links) = &texts[k];
+            c.check("C02.broken.base_converts", *base_links != usize::MAX, || format!("{} itself does not convert", fname));
+            let d = c.pick(defs.len());
+            let (at, name, kind) = &defs[d];
+            let edit = c.pick(3);
+            let what = ["renamed", "renamed to lower case", "removed"][edit];
+            c.note(format!("{}: {} \"{}\" {}", fname, kind, name, what));
+            let mut t = text.clone();
+            match edit {
+                // the definition gets another name: every reference to the old name now dangles
+                0 => t.insert_str(at + name.len(), "_renamed"),
+                // names are case-sensitive
+                1 => {
+                    let lower = name.to_lowercase();
+                    if lower == *name {
+                        return;
+                    }
+                    t.replace_range(*at..at + name.len(), &lower);
+                }
+                // the whole block goes (from its first line to the line that closes it with `..`)
+                _ => {
+                    let start = text[..*at].rfind('\n').map(|i| i + 1).unwrap_or(0);
+                    let mut end = start;
+                    for line in text[start..].split_inclusive('\n') {
+                        end += line.len();
+                        if line.trim_end().ends_with("..") {
+                            break;
+                        }
+                    }
+                    t.replace_range(start..end, "");
+                }
+            }
+            let renamed = edit < 2;
+            match convert_text(t) {
+                Outcome::Model(m) => {
+                    // still converted (e.g. the name also exists in the catalogue): then it must be closed
+                    judge_model(c, &format!("{} with {} \"{}\" {}", fname, kind, name, what), &m);
+                    // ... and no optional link (space -> loads / thermostat, wall -> adjacent space, loads / thermostat ->
+                    // schedule) that the intact project has may silently go missing
+                    let links = optional_links(&m);
+                    c.check("C02.broken.no_missing_links", !renamed || links >= *base_links, || format!("{} with {} \"{}\" {}: converted to a model with {} optional links, the intact project has {}", fname, kind, name, what, links, base_links));
+                    c.nontrivial(format!("{} still converts", kind));
+                    c.sample(|| format!("{}: {} \"{}\" {} -> still a closed model", fname, kind, name, what));
+                }
+                Outcome::Rejected(e) => {
+                    c.check("C02.broken.rejected", !e.is_empty(), || "empty error".to_string());
+                    c.nontrivial(format!("{} {}", kind, e.chars().take(40).collect::<String>()));
+                    c.sample(|| format!("{}: {} \"{}\" {} -> error: {}", fname, kind, name, what, e.chars().take(90).collect::<String>()));
+                }
+                Outcome::Crashed(msg) => c.check("C02.rejects_with_error", false, || format!("{} with {} \"{}\" {}: conversion panicked instead of returning an error: {}", fname, kind, name, what, msg.chars().take(200).collect::<String>())),
+                Outcome::Hung => {
+                    c.check("C02.rejects_with_error", false, || format!("{} with {} \"{}\" {}: no answer in 60 s", fname, kind, name, what));
+                    c.stop();
+                }
+            }
+        });
+    }
+
+    #[test]
+    fn n_c02_broken_refs() {
+        broken_refs("C02.broken", "all 12 shipped .ctehexml projects: every referenced definition renamed (suffix / lower case) or removed, one at a time; real parser + converter", |all| all.to_vec());
+    }
+
+    // ---- C05: export and indicators are deterministic, reproducible and history-independent ----------------------
+    fn fnv(text: &str) -> String {
+        let mut h: u64 = 0xcbf29ce484222325;
+        for b in text.bytes() {
+            h ^= b as u64;
+            h = h.wrapping_mul(0x100000001b3);
+        }
+        format!("{:016x}:{}", h, text.len())
+    }
+
+    fn project_files() -> Vec<PathBuf> {
+        let mut v = vec![];
+        files_with_ext(&tests_root(), "ctehexml", &mut v);
+        v
+    }
+
+    fn convert_to_json(text: &str) -> Result<String, String> {
+        let d = hulc::ctehexml::parse_with_catalog(text).map_err(|e| e.to_string())?;
+        let m = Model::try_from(&d).map_err(|e| e.to_string())?;
+        m.as_json().map_err(|e| e.to_string())
+    }
+
+    const CHILD_ENV: &str = "VERIF_C05_CHILD_OUT";
+
+    #[test]
+    fn n_c05_convert_repeat() {
+        let files = project_files();
+        // fresh-process mode: this same test, started by the parent below, writes one digest per project and leaves
+        if let Ok(out) = std::env::var(CHILD_ENV) {
+            let mut lines = String::new();
+            for f in &files {
+                let t = std::fs::read_to_string(f).unwrap();
+                lines.push_str(&format!("{}\n", convert_to_json(&t).map(|j| fnv(&j)).unwrap_or_else(|e| format!("ERR {}", e))));
+            }
+            std::fs::write(out, lines).unwrap();
+            return;
+        }
+        let texts: Vec<(String, String)> = files.iter().map(|f| (f.file_name().unwrap().to_string_lossy().to_string(), std::fs::read_to_string(f).unwrap())).collect();
+        // one fresh process for the whole corpus
+        let child_out = std::env::temp_dir().join(format!("verif-c05-{}.txt", std::process::id()));
+        let status = std::process::Command::new(std::env::current_exe().unwrap())
+            .args(["--exact", "convert::from_ctehexml::verif_convert::n::n_c05_convert_repeat", "--test-threads", "1"])
+            .env(CHILD_ENV, &child_out)
+            .env_remove("VERIF_OUT")
+            .stdout(std::process::Stdio::null())
+            .stderr(std::process::Stdio::null())
+            .status();
+        let fresh: Vec<String> = std::fs::read_to_string(&child_out).unwrap_or_default().lines().map(|l| l.to_string()).collect();
+        let _ = std::fs::remove_file(&child_out);
+        let fresh_ok = status.map(|s| s.success()).unwrap_or(false) && fresh.len() == texts.len();
+        drive("C05.convert", "all 12 shipped .ctehexml projects: converted twice in this process, once in a fresh process, and on 16 threads at once (8 on the same project, 8 on the next one): byte-identical JSON", |c| {
+            c.check("C05.convert.corpus", texts.len() >= 12, || format!("{} projects found", texts.len()));
+            c.check("C05.convert.fresh_process_ran", fresh_ok, || format!("child process gave {} digests for {} projects", fresh.len(), texts.len()));
+            let k = c.pick(texts.len());
+            let (name, text) = &texts[k];
+            c.note(name.clone());
+            let first = match convert_to_json(text) {
+                Ok(j) => j,
+                Err(e) => {
+                    c.sample(|| format!("{}: not convertible: {}", name, e));
+                    return;
+                }
+            };
+            let second = convert_to_json(text).unwrap_or_default();
+            c.check("C05.convert.same_process", first == second, || format!("{}: second conversion in the same process differs", name));
+            if fresh_ok {
+                c.check("C05.convert.fresh_process", fresh[k] == fnv(&first), || format!("{}: a fresh process produced different JSON ({} vs {})", name, fresh[k], fnv(&first)));
+            }
+            let other = &texts[(k + 1) % texts.len()].1;
+            let other_first = convert_to_json(other).ok();
+            let results: Vec<(bool, Option<String>)> = std::thread::scope(|sc| {
+                let hs: Vec<_> = (0..16)
+                    .map(|i| {
+                        let (t, mine) = if i % 2 == 0 { (text.as_str(), true) } else { (other.as_str(), false) };
+                        sc.spawn(move || (mine, convert_to_json(t).ok()))
+                    })
+                    .collect();
+                hs.into_iter().map(|h| h.join().unwrap_or((true, None))).collect()
+            });
+            let bad = results.iter().filter(|(mine, j)| if *mine { j.as_deref() != Some(first.as_str()) } else { *j != other_first }).count();
+            c.check("C05.convert.concurrent", bad == 0, || format!("{}: {} of 16 concurrent conversions differ from the sequential result", name, bad));
+            c.nontrivial(name.clone());
+            c.sample(|| format!("{}: {} bytes, digest {}", name, first.len(), fnv(&first)));
+        });
+    }
+
+    /// (collection, name) -> id of every element of a model
+    fn id_table(m: &Model) -> Vec<(String, String, Uuid)> {
+        let mut v: Vec<(String, String, Uuid)> = vec![];
+        macro_rules! add {
+            ($coll:expr, $what:expr) => {
+                for x in $coll.iter() {
+                    v.push(($what.to_string(), x.name.clone(), x.id));
+                }
+            };
+        }
+        add!(m.spaces, "space");
+        add!(m.walls, "wall");
+        add!(m.windows, "window");
+        add!(m.shades, "shade");
+        add!(m.thermal_bridges, "thermal_bridge");
+        add!(m.cons.wallcons, "wallcons");
+        add!(m.cons.wincons, "wincons");
+        add!(m.cons.materials, "material");
+        add!(m.cons.glasses, "glass");
+        add!(m.cons.frames, "frame");
+        add!(m.loads, "loads");
+        add!(m.thermostats, "thermostat");
+        add!(m.schedules.year, "schedule.year");
+        add!(m.schedules.week, "schedule.week");
+        add!(m.schedules.day, "schedule.day");
+        v
+    }
+
+    const LIBRARY_KINDS: [&str; 14] = ["MATERIAL", "LAYERS", "CONSTRUCTION", "GLASS-TYPE", "NAME-FRAME", "GAP", "DAY-SCHEDULE-PD", "WEEK-SCHEDULE-PD", "SCHEDULE-PD", "SPACE-CONDITIONS", "SYSTEM-CONDITIONS", "BUILDING-SHADE", "THERMAL-BRIDGE", "POLYGON"];
+
+    #[test]
+    fn n_c05_ids_local() {
+        let texts: Vec<(String, String, Vec<(usize, String, String)>)> = project_files()
+            .iter()
+            .map(|f| {
+                let t = std::fs::read_to_string(f).unwrap();
+                let defs = definitions(&t);
+                (f.file_name().unwrap().to_string_lossy().to_string(), t, defs)
+            })
+            .collect();
+        drive("C05.ids", "all 12 shipped projects x 14 library block kinds: a copy of the first / middle / last block of the kind is added under a new name (an unrelated definition); every element of the original model keeps its id", |c| {
+            let k = c.pick(texts.len());
+            let (fname, text, defs) = &texts[k];
+            let kind = c.of(&LIBRARY_KINDS);
+            let which = c.pick(3);
+            let of_kind: Vec<&(usize, String, String)> = defs.iter().filter(|d| d.2 == kind).collect();
+            if of_kind.is_empty() {
+                return;
+            }
+            let (at, name, _) = of_kind[[0, of_kind.len() / 2, of_kind.len() - 1][which]];
+            c.note(format!("{}: twin of {} \"{}\"", fname, kind, name));
+            let start = text[..*at].rfind('\n').map(|i| i + 1).unwrap_or(0);
+            let mut end = start;
+            for line in text[start..].split_inclusive('\n') {
+                end += line.len();
+                if line.trim_end().ends_with("..") {
+                    break;
+                }
+            }
+            let block = &text[start..end];
+            let twin = block.replacen(&format!("\"{}\"", name), &format!("\"{}_twin\"", name), 1);
+            let mut t = text.clone();
+            t.insert_str(start, &twin);
+            let base = match hulc::ctehexml::parse_with_catalog(text).map_err(|e| e.to_string()).and_then(|d| Model::try_from(&d).map_err(|e| e.to_string())) {
+                Ok(m) => m,
+                Err(_) => return,
+            };
+            let edited = match hulc::ctehexml::parse_with_catalog(&t).map_err(|e| e.to_string()).and_then(|d| Model::try_from(&d).map_err(|e| e.to_string())) {
+                Ok(m) => m,
+                Err(e) => {
+                    c.sample(|| format!("{}: twin of {} \"{}\" rejected: {}", fname, kind, name, e));
+                    return;
+                }
+            };
+            let (a, b) = (id_table(&base), id_table(&edited));
+            let moved: Vec<String> = a.iter().filter(|(coll, n, id)| !b.iter().any(|(c2, n2, id2)| c2 == coll && n2 == n && id2 == id)).map(|(coll, n, _)| format!("{} {}", coll, n)).collect();
+            c.check("C05.ids.local", moved.is_empty(), || format!("{}: adding an unrelated {} changed the id of (or lost) {} elements, e.g. {:?}", fname, kind, moved.len(), &moved[..moved.len().min(3)]));
+            c.nontrivial(format!("{} {}", fname, kind));
+            c.sample(|| format!("{}: twin of {} \"{}\": {} -> {} elements", fname, kind, name, a.len(), b.len()));
+        });
+    }
+
+    const REFERENCE_PAIRS: [(&str, &str); 6] = [
+        ("cubo/cubo.ctehexml", "cubo.json"),
+        ("e4h_medianeras/e4h_medianeras.ctehexml", "e4h_medianeras.json"),
+        ("casoA/casoa.ctehexml", "caso_a.json"),
+        ("ejemploviv_unif/ejemploviv_unif.ctehexml", "ejemploviv_unif.json"),
+        ("ejemplo_gt_aerotermia/ejemplo_gt_aerotermia.ctehexml", "ejemplo_gt_aerotermia.json"),
+        ("cubo_gt_caldera_radiadores/cubo_gt_caldera_radiadores.ctehexml", "cubo_gt_caldera_radiadores.json"),
+    ];
+
+    fn value_diff(a: &serde_json::Value, b: &serde_json::Value, path: &mut Vec<String>, out: &mut Vec<String>) {
+        use serde_json::Value::*;
+        if out.len() > 200 {
+            return;
+        }
+        match (a, b) {
+            (Object(x), Object(y)) => {
+                for k in x.keys() {
+                    path.push(k.clone());
+                    match y.get(k) {
+                        Some(q) => value_diff(&x[k], q, path, out),
+                        None => out.push(format!("missing: /{}", path.join("/"))),
+                    }
+                    path.pop();
+                }
+                for k in y.keys().filter(|k| !x.contains_key(*k)) {
+                    out.push(format!("extra: /{}/{}", path.join("/"), k));
+                }
+            }
+            (Array(x), Array(y)) => {
+                if x.len() != y.len() {
+                    out.push(format!("array length {} -> {} at /{}", x.len(), y.len(), path.join("/")));
+                }
+                for (i, (p, q)) in x.iter().zip(y.iter()).enumerate() {
+                    path.push(i.to_string());
+                    value_diff(p, q, path, out);
+                    path.pop();
+                }
+            }
+            (Number(x), Number(y)) => {
+                if (x.as_f64().unwrap_or(f64::NAN) as f32) != (y.as_f64().unwrap_or(f64::NAN) as f32) {
+                    out.push(format!("number {} -> {} at /{}", x, y, path.join("/")));
+                }
+            }
+            (p, q) => {
+                if p != q {
+                    out.push(format!("value {} -> {} at /{}", p, q, path.join("/")));
+                }
+            }
+        }
+    }
+
+    #[test]
+    fn n_c05_reference_models() {
+        drive("C05.reference", "the 6 (project, reference model) pairs of the Makefile: the project converted today against bemodel/tests/data/<model>.json, as JSON values (numbers as f32)", |c| {
+            let (proj, model) = c.of(&REFERENCE_PAIRS);
+            c.note(format!("{} -> {}", proj, model));
+            let text = std::fs::read_to_string(tests_root().join(proj)).expect("project file");
+            let want_text = std::fs::read_to_string(Path::new(env!("CARGO_MANIFEST_DIR")).join("tests/data").join(model)).expect("reference model");
+            let got = match convert_to_json(&text) {
+                Ok(j) => j,
+                Err(e) => {
+                    c.check("C05.reference.converts", false, || format!("{} does not convert: {}", proj, e));
+                    return;
+                }
+            };
+            let (g, w): (serde_json::Value, serde_json::Value) = (serde_json::from_str(&got).unwrap(), serde_json::from_str(&want_text).unwrap());
+            let mut d = vec![];
+            value_diff(&w, &g, &mut vec![], &mut d);
+            c.check("C05.reference.exact", d.is_empty(), || format!("{}: {} differences with the shipped reference model, first: {:?}", proj, d.len(), &d[..d.len().min(4)]));
+            c.nontrivial(proj.to_string());
+            c.sample(|| format!("{} == {} ({} bytes)", proj, model, got.len()));
+        });
+    }
+
+    /// The same building with the same ids and different content (what a user gets by editing a value in place)
+    const N_VARIANTS: usize = 5;
+    fn variant(m: &Model, v: usize) -> Model {
+        let mut m = m.clone();
+        match v {
+            0 => m.schedules.day.iter_mut().for_each(|d| d.values.iter_mut().for_each(|x| *x *= 0.5)),
+            1 => m.spaces.iter_mut().for_each(|s| s.height += 0.5),
+            2 => m.cons.materials.iter_mut().for_each(|mat| {
+                if let MatProps::Detailed { conductivity, .. } = &mut mat.properties {
+                    *conductivity *= 2.0;
+                }
+            }),
+            3 => m.meta.climate = if m.meta.climate == crate::climatedata::ClimateZone::A3c { crate::climatedata::ClimateZone::E1 } else { crate::climatedata::ClimateZone::A3c },
+            _ => {
+                m.windows.iter_mut().for_each(|w| w.geometry.width *= 0.5);
+                m.cons.glasses.iter_mut().for_each(|g| g.g_gln *= 0.5);
+                m.loads.iter_mut().for_each(|l| l.lighting *= 3.0);
+            }
+        }
+        m
+    }
+
+    const CHILD_IND_ENV: &str = "VERIF_C05_CHILD_IND";
+
+    fn shipped_models() -> Vec<(String, Model)> {
+        let dir = Path::new(env!("CARGO_MANIFEST_DIR")).join("tests/data");
+        let mut files = vec![];
+        files_with_ext(&dir, "json", &mut files);
+        files
+            .iter()
+            .filter(|f| !f.to_string_lossy().contains("_results"))
+            .filter_map(|f| Model::from_json(&std::fs::read_to_string(f).ok()?).ok().map(|m| (f.file_name().unwrap().to_string_lossy().to_string(), m)))
+            .collect()
+    }
+
+    #[test]
+    fn n_c05_indicators_history() {
+        // fresh-process mode: indicators of ONE variant of one shipped model, computed with nothing before it
+        if let Ok(spec) = std::env::var(CHILD_IND_ENV) {
+            let parts: Vec<&str> = spec.splitn(3, ',').collect();
+            let (i, v): (usize, usize) = (parts[0].parse().unwrap(), parts[1].parse().unwrap());
+            let models = shipped_models();
+            let val = serde_json::to_value(variant(&models[i].1, v).energy_indicators()).unwrap_or(serde_json::Value::Null);
+            std::fs::write(parts[2], val.to_string()).unwrap();
+            return;
+        }
+        let dir = Path::new(env!("CARGO_MANIFEST_DIR")).join("tests/data");
+        let mut files = vec![];
+        files_with_ext(&dir, "json", &mut files);
+        let models: Vec<(String, Model)> = files
+            .iter()
+            .filter(|f| !f.to_string_lossy().contains("_results"))
+            .filter_map(|f| Model::from_json(&std::fs::read_to_string(f).ok()?).ok().map(|m| (f.file_name().unwrap().to_string_lossy().to_string(), m)))
+            .collect();
+        // each model alone, before anything else has been computed for it in this process
+        // compared as JSON values: the order in which a map-typed result lists its keys is not a value
+        let ind = |m: &Model| -> serde_json::Value { serde_json::to_value(m.energy_indicators()).unwrap_or(serde_json::Value::Null) };
+        let alone: Vec<serde_json::Value> = models.iter().map(|(_, m)| ind(m)).collect();
+        drive("C05.indicators", "the 7 shipped models: indicators of A computed after those of B (all ordered pairs), on 16 threads at once (every thread a different rotation of the 7 models), and 5 same-ids-other-content variants of each model computed after the model itself against a fresh process: identical JSON values", |c| {
+            c.check("C05.indicators.corpus", models.len() >= 7, || format!("{} models loaded", models.len()));
+            let mode = c.pick(3);
+            if mode == 2 {
+                // the same ids with other content: whatever was remembered about the first model must not leak
+                let a = c.pick(models.len());
+                let v = c.pick(N_VARIANTS);
+                c.note(format!("{}: variant {} (same ids, other content) after the shipped model", models[a].0, v));
+                let out = std::env::temp_dir().join(format!("verif-c05-ind-{}-{}-{}.json", std::process::id(), a, v));
+                let status = std::process::Command::new(std::env::current_exe().unwrap())
+                    .args(["--exact", "convert::from_ctehexml::verif_convert::n::n_c05_indicators_history", "--test-threads", "1"])
+                    .env(CHILD_IND_ENV, format!("{},{},{}", a, v, out.display()))
+                    .env_remove("VERIF_OUT")
+                    .stdout(std::process::Stdio::null())
+                    .stderr(std::process::Stdio::null())
+                    .status();
+                let fresh: serde_json::Value = std::fs::read_to_string(&out).ok().and_then(|t| serde_json::from_str(&t).ok()).unwrap_or(serde_json::Value::Null);
+                let _ = std::fs::remove_file(&out);
+                c.check("C05.indicators.fresh_process_ran", status.map(|s| s.success()).unwrap_or(false) && !fresh.is_null(), || "child process gave no result".to_string());
+                let _ = ind(&models[a].1);
+                let here = ind(&variant(&models[a].1, v));
+                // through JSON text both: numbers compared as written
+                let here: serde_json::Value = serde_json::from_str(&here.to_string()).unwrap_or(serde_json::Value::Null);
+                c.check("C05.indicators.same_ids_other_content", here == fresh, || { let mut d = vec![]; value_diff(&fresh, &here, &mut vec![], &mut d); format!("{} variant {}: computed after the shipped model differs from a fresh process: {:?}", models[a].0, v, &d[..d.len().min(3)]) });
+                c.check("C05.indicators.variant_differs", here != alone[a], || format!("{} variant {} has the same indicators as the shipped model (variant too weak)", models[a].0, v));
+                c.nontrivial(format!("variant {} {}", a, v));
+                c.sample(|| format!("{} variant {}: identical to a fresh process", models[a].0, v));
+            } else if mode == 0 {
+                let a = c.pick(models.len());
+                let b = c.pick(models.len());
+                c.note(format!("{} after {}", models[a].0, models[b].0));
+                let _ = models[b].1.energy_indicators();
+                let again = ind(&models[a].1);
+                c.check("C05.indicators.history", again == alone[a] && !again.is_null(), || { let mut d = vec![]; value_diff(&alone[a], &again, &mut vec![], &mut d); format!("indicators of {} differ when computed after {}: {:?}", models[a].0, models[b].0, &d[..d.len().min(3)]) });
+                c.nontrivial(format!("{} {}", a, b));
+                c.sample(|| format!("{} after {}: identical ({})", models[a].0, models[b].0, fnv(&again.to_string())));
+            } else {
+                let shift = c.pick(2);
+                c.note(format!("16 threads, rotation offset {}", shift));
+                let res: Vec<Vec<(usize, serde_json::Value)>> = std::thread::scope(|sc| {
+                    let hs: Vec<_> = (0..16usize)
+                        .map(|i| {
+                            let models = &models;
+                            sc.spawn(move || (0..models.len()).map(|j| { let k = (i + shift + j * (1 + i % 3)) % models.len(); (k, ind(&models[k].1)) }).collect::<Vec<_>>())
+                        })
+                        .collect();
+                    hs.into_iter().map(|h| h.join().unwrap_or_default()).collect()
+                });
+                let bad: Vec<String> = res.iter().flatten().filter(|(k, j)| *j != alone[*k]).map(|(k, _)| models[*k].0.clone()).collect();
+                c.check("C05.indicators.concurrent", bad.is_empty() && res.iter().all(|r| r.len() == models.len()), || format!("{} concurrent computations differ from the sequential result: {:?}", bad.len(), &bad[..bad.len().min(3)]));
+                c.nontrivial(format!("threads {}", shift));
+                c.sample(|| format!("16 threads x {} models: all identical to the sequential results", models.len()));
+            }
+        });
+    }
+
+    // ---- C19: damaged project files are rejected with an error, never with a crash or hang ----------------------
+    #[derive(Clone, Copy, PartialEq, Debug)]
+    enum FileKind {
+        Ctehexml,
+        Cte,
+        Kyg,
+        Tbl,
+    }
+
+    enum Damaged {
+        Converted,
+        Rejected(String),
+        Crashed(String, String),
+        Hung,
+    }
+
+    fn process_damaged(kind: FileKind, text: String, scratch_name: String) -> Damaged {
+        let r = run_with_timeout(60, move || {
+            let r = std::panic::catch_unwind(std::panic::AssertUnwindSafe(|| -> Result<(), String> {
+                match kind {
+                    FileKind::Ctehexml => {
+                        let d = hulc::ctehexml::parse_with_catalog(&text).map_err(|e| e.to_string())?;
+                        Model::try_from(&d).map(|_| ()).map_err(|e| e.to_string())
+                    }
+                    FileKind::Cte => {
+                        let mut data = hulc::ctehexml::CtehexmlData::default();
+                        data.bdldata = Data::new(&text).map_err(|e| e.to_string())?;
+                        Model::try_from(&data).map(|_| ()).map_err(|e| e.to_string())
+                    }
+                    FileKind::Kyg => hulc::kyg::parse(&text).map(|_| ()).map_err(|e| e.to_string()),
+                    FileKind::Tbl => {
+                        // tbl::parse reads a path (latin-1 text): the damaged text goes through a scratch file
+                        let p = std::env::temp_dir().join(scratch_name);
+                        let bytes: Vec<u8> = text.chars().map(|ch| if (ch as u32) < 256 { ch as u32 as u8 } else { b'?' }).collect();
+                        std::fs::write(&p, bytes).map_err(|e| e.to_string())?;
+                        let r = std::panic::catch_unwind(std::panic::AssertUnwindSafe(|| hulc::tbl::parse(&p).map(|_| ()).map_err(|e| e.to_string())));
+                        let _ = std::fs::remove_file(&p);
+                        match r {
+                            Ok(x) => x,
+                            Err(e) => std::panic::resume_unwind(e),
+                        }
+                    }
+                }
+            }));
+            r.map_err(|e| (panic_text(&*e), last_panic_location()))
+        });
+        match r {
+            None => Damaged::Hung,
+            Some(Err((msg, loc))) => Damaged::Crashed(msg, loc),
+            Some(Ok(Err(e))) => Damaged::Rejected(e),
+            Some(Ok(Ok(()))) => Damaged::Converted,
+        }
+    }
+
+    fn read_latin1(p: &Path) -> String {
+        let bytes = std::fs::read(p).unwrap_or_default();
+        match String::from_utf8(bytes.clone()) {
+            Ok(s) => s,
+            Err(_) => bytes.iter().map(|b| *b as char).collect(),
+        }
+    }
+
+    fn c19_corpus() -> Vec<(FileKind, String, String)> {
+        let mut out = vec![];
+        let root = tests_root();
+        for (ext, kind) in [("ctehexml", FileKind::Ctehexml), ("cte", FileKind::Cte), ("txt", FileKind::Kyg), ("tbl", FileKind::Tbl)] {
+            let mut v = vec![];
+            files_with_ext(&root, ext, &mut v);
+            for p in v {
+                let name = p.file_name().unwrap().to_string_lossy().to_string();
+                if kind == FileKind::Kyg && !name.starts_with("KyGananciasSolares") {
+                    continue;
+                }
+                let rel = p.strip_prefix(&root).unwrap().to_string_lossy().to_string();
+                out.push((kind, rel, read_latin1(&p)));
+            }
+        }
+        out
+    }
+
+    fn c19_drive(obligation: &'static str, scope: &'static str, step_quick: usize, kinds: &'static [FileKind]) {
+        let corpus: Vec<(FileKind, String, String)> = c19_corpus().into_iter().filter(|f| kinds.contains(&f.0)).collect();
+        let thorough = std::env::var("VERIF_TIER").map(|t| t == "thorough").unwrap_or(false);
+        let seed: usize = std::env::var("VERIF_SEED").ok().and_then(|s| s.parse().ok()).unwrap_or(0);
+        let step = if thorough { 1 } else { step_quick };
+        // flat list of (file, line) of this tier's slice: every `step`-th line of every file, offset by the seed
+        let mut slice: Vec<(usize, usize)> = vec![];
+        for (fi, (_, _, text)) in corpus.iter().enumerate() {
+            let n = text.split_inclusive('\n').count();
+            let mut l = (seed + fi) % step;
+            while l < n {
+                slice.push((fi, l));
+                l += step;
+            }
+        }
+        let total_lines: usize = corpus.iter().map(|f| f.2.split_inclusive('\n').count()).sum();
+        drive(obligation, scope, |c| {
+            c.check("C19.corpus", corpus.len() >= kinds.len() && !slice.is_empty(), || format!("{} files, {} lines in the slice", corpus.len(), slice.len()));
+            let k = c.pick(slice.len());
+            let kind = c.pick(DAMAGE_KINDS.len());
+            let (fi, line) = slice[k];
+            let (fkind, fname, text) = &corpus[fi];
+            let damaged = match damage(text, line, kind) {
+                Some(t) => t,
+                None => return,
+            };
+            c.note(format!("{} line {}: {}", fname, line + 1, DAMAGE_KINDS[kind]));
+            match process_damaged(*fkind, damaged, format!("verif-c19-{}-{}-{}.tbl", std::process::id(), k, kind)) {
+                Damaged::Converted => {
+                    c.check("C19.converted_or_rejected", true, || String::new());
+                    c.nontrivial(format!("{:?} {} converted", fkind, DAMAGE_KINDS[kind]));
+                }
+                Damaged::Rejected(e) => {
+                    c.check("C19.converted_or_rejected", !e.is_empty(), || "rejected with an empty message".to_string());
+                    c.nontrivial(format!("{:?} {} rejected", fkind, DAMAGE_KINDS[kind]));
+                    c.sample(|| format!("{} line {} {}: rejected: {}", fname, line + 1, DAMAGE_KINDS[kind], e.chars().take(80).collect::<String>()));
+                }
+                Damaged::Crashed(msg, loc) => {
+                    let site = crash_site(&msg, &loc);
+                    c.check(&format!("C19.no_crash@{}", site), false, || format!("{} with line {} {}: panicked at {}: {}", fname, line + 1, DAMAGE_KINDS[kind], loc, msg.chars().take(160).collect::<String>()));
+                }
+                Damaged::Hung => {
+                    c.check("C19.no_hang", false, || format!("{} with line {} {}: no answer in 60 s", fname, line + 1, DAMAGE_KINDS[kind]));
+                    c.stop();
+                }
+            }
+            let _ = total_lines;
+        });
+    }
+
+    #[test]
+    fn n_c19_projects() {
+        c19_drive("C19.projects", "the 12 shipped .ctehexml projects: 8 kinds of single-line damage on every 8th line (quick; offset by VERIF_SEED) or on every line (thorough); real parser (with catalogue) + converter", 8, &[FileKind::Ctehexml]);
+    }
+
+    #[test]
+    fn n_c19_legacy() {
+        c19_drive("C19.legacy", "the 56 legacy LIDER .cte files: 8 kinds of single-line damage on every 20th line (quick) or every line (thorough); bdl::Data::new + Model::try_from", 20, &[FileKind::Cte]);
+    }
+
+    #[test]
+    fn n_c19_results() {
+        c19_drive("C19.results", "KyGananciasSolares.txt and NewBDL_O.tbl files: 8 kinds of single-line damage on every 4th line (quick) or every line (thorough); hulc::kyg::parse / hulc::tbl::parse", 4, &[FileKind::Kyg, FileKind::Tbl]);
+    }
 }
